@@ -896,9 +896,11 @@ func (h *c05H) windowEvent() {
 	switch x := d.R.Intn(4); {
 	case x <= 1 && len(und) > 0:
 		h.undeleteBlob(und[d.R.Intn(len(und))])
-	case x == 2 && len(del) > 1:
-		h.deleteBlob(del[d.R.Intn(len(del))])
 	default:
+		// (no DeleteBlob inside the window: deletion times reach the database truncated to whole seconds,
+		// so with MetadataUndeleteTime = 0 a blob deleted after the scan but within the same wall-clock
+		// second would count as deleted before the cutoff; with the real three-day grace period this is moot)
+		_ = del
 		h.reportAll(d.R.Range(1, len(d.Cl.TS)-1), false)
 	}
 }
